@@ -1,8 +1,28 @@
-//! dev helper: dbg '<cypher>' — prints the parsed AST (not a check)
+//! dev helper (not a check):
+//!   dbg ast '<cypher>'            prints the parsed AST
+//!   dbg run '<stmt>' '<stmt>' ... runs the statements in order on a fresh store, prints rows / errors
+use samyama::graph::GraphStore;
+use samyama::query::executor::MutQueryExecutor;
 fn main() {
-    let q = std::env::args().nth(1).unwrap();
-    match samyama::query::parse_query(&q) {
-        Ok(ast) => println!("{:#?}", ast),
-        Err(e) => println!("ERR {e}"),
+    let args: Vec<String> = std::env::args().collect();
+    match args.get(1).map(|s| s.as_str()) {
+        Some("ast") => match samyama::query::parse_query(&args[2]) {
+            Ok(ast) => println!("{:#?}", ast),
+            Err(e) => println!("ERR {e}"),
+        },
+        Some("run") => {
+            let mut store = GraphStore::new();
+            for q in &args[2..] {
+                match samyama::query::parse_query(q) {
+                    Err(e) => println!("{q}\n  PARSE ERR {e}"),
+                    Ok(ast) => match MutQueryExecutor::new(&mut store, "default".into()).execute(&ast) {
+                        Ok(b) => println!("{q}\n  cols={:?} rows={:?}", b.columns, svmc::model::values::rows_of(&b)),
+                        Err(e) => println!("{q}\n  ERR {e}"),
+                    },
+                }
+            }
+            println!("graph: {}", svmc::model::graph::dump(&store).describe());
+        }
+        _ => println!("usage: dbg ast|run ..."),
     }
 }
